@@ -2280,6 +2280,9 @@ func entryGuardedRecursion(fn *ssa.Function) bool {
 	if len(fn.Blocks) == 0 {
 		return false
 	}
+	if sharedSetGuardedRecursion(fn) {
+		return true
+	}
 	// the entry test: If Contains(collParam, keyParam) → return
 	var coll, key *ssa.Parameter
 	var absent *ssa.BasicBlock
